@@ -60,6 +60,8 @@ type vWriteRun struct {
 	cur     *vSession
 	done    []*vSession
 	lastDir string
+	gapMode bool            // base path pre-populated with run directories (with holes) of today
+	preDirs map[string]bool // directories that existed before the request being applied
 	hist    []string
 	blockNo int
 	multi   bool // several records per channel and block
@@ -144,6 +146,19 @@ func vNewWriteRun(c *vCase, variety bool) *vWriteRun {
 	}
 	w.base = filepath.Join(c.Dir, "out")
 	os.MkdirAll(w.base, 0o755)
+	if vChance(r, 0.3) {
+		// earlier runs of today already exist, not necessarily consecutively numbered (a user may have
+		// removed some): START must still write into a directory that did not exist before.
+		w.gapMode = true
+		today := time.Now().Format("20060102")
+		layout := vPick(r, []int{1}, []int{3}, []int{1, 3}, []int{0, 2}, []int{0, 1, 4}, []int{2, 3, 4, 5}, []int{0, 1, 2})
+		for _, n := range layout {
+			d := filepath.Join(w.base, today, fmt.Sprintf("%04d", n))
+			os.MkdirAll(d, 0o755)
+			os.WriteFile(filepath.Join(d, "earlier_run.txt"), []byte("data of an earlier run\n"), 0o644)
+		}
+		c.Cov("histories_with_preexisting_directories", 1)
+	}
 	// all truth is generated lazily block by block
 	w.f.truth = make([][]RawType, w.nchan)
 	return w
@@ -239,6 +254,15 @@ func (w *vWriteRun) request(req string, l22, l3, of bool) bool {
 	up := strings.ToUpper(req)
 	m := w.model
 	before := ds.ComputeWritingState()
+	w.preDirs = map[string]bool{}
+	if days, err := os.ReadDir(w.base); err == nil {
+		for _, d := range days {
+			runs, _ := os.ReadDir(filepath.Join(w.base, d.Name()))
+			for _, rd := range runs {
+				w.preDirs[filepath.Join(w.base, d.Name(), rd.Name())] = true
+			}
+		}
+	}
 	wantErr := false
 	kind := "garbage"
 	label := ""
@@ -318,7 +342,13 @@ func (w *vWriteRun) request(req string, l22, l3, of bool) bool {
 			return false
 		}
 		n, _ := strconv.Atoi(mm[2])
-		if w.lastDir != "" {
+		if w.preDirs[w.cur.dir] {
+			c.Violate("c06:directory-not-new", "START wrote into directory %q, which existed before the request (history %v)", w.cur.dir, w.hist)
+			return false
+		}
+		if w.gapMode {
+			c.Cov("starts_with_preexisting_directories", 1)
+		} else if w.lastDir != "" {
 			pn, _ := strconv.Atoi(filepath.Base(w.lastDir))
 			if filepath.Dir(w.lastDir) == filepath.Dir(w.cur.dir) && n != pn+1 {
 				c.Violate("c06:directory-number", "START wrote into directory %04d after %04d: not a newly created next directory", n, pn)
@@ -810,6 +840,11 @@ func vRunWriteHistory(c *vCase, prop string) {
 			dropped := 0
 			if prop == "C20" || vChance(r, 0.2) {
 				ne := vPick(r, 0, 0, 1, 2, 5, 50)
+				if prop == "C20" && vChance(r, 0.12) {
+					// a burst larger than any buffered-writer size (8 bytes per count)
+					ne = vPick(r, 511, 512, 513, 600, 1500, 4097)
+					c.Cov("exttrig_bursts", 1)
+				}
 				for i := 0; i < ne; i++ {
 					ext = append(ext, vPick(r, int64(0), int64(-1), r.Int63(), int64(w.blockNo)*1000+int64(i)))
 				}
@@ -1073,7 +1108,7 @@ func init() {
 			Rule: "case = history of 5-25 steps biased to requests (START over all 7 type subsets and none, STOP, PAUSE, UNPAUSE, 'UNPAUSE label', malformed UNPAUSE, garbage; redundant and illegal orders) interleaved with blocks yielding one record per channel; after every request the reply class and the reported state are compared with an executable state machine, a successful START must create the next numbered directory, after every STOP the files are decoded and must hold exactly the records published while the model was active and unpaused for every enabled type and eligible channel, and no descriptor below the directory may stay open; non-trivial = at least one finished session",
 			Assumptions: []string{"PAUSE/UNPAUSE while not active are accepted requests that only set the flag (as the code's reply shows); START clears it"},
 			Guards: map[string]map[string]int{
-				"quick":    {"sessions": 300, "state_checks": 2000, "rejected_START": 100, "rejected_UNPAUSE": 50, "rejected_garbage": 50, "accepted_PAUSE": 300, "accepted_STOP": 300, "blocks_while_paused": 100, "blocks_while_inactive": 300, "file_records": 1000},
+				"quick":    {"sessions": 300, "state_checks": 2000, "starts_with_preexisting_directories": 80, "rejected_START": 100, "rejected_UNPAUSE": 50, "rejected_garbage": 50, "accepted_PAUSE": 300, "accepted_STOP": 300, "blocks_while_paused": 100, "blocks_while_inactive": 300, "file_records": 1000},
 				"thorough": {"sessions": 6000, "state_checks": 40000, "rejected_START": 2000},
 			}},
 	})
@@ -1089,7 +1124,7 @@ func init() {
 			Rule: "case = history of 5-60 steps mixing blocks that carry 0-50 external-trigger counts (incl. negative/huge) and drop counts with START/STOP/PAUSE/UNPAUSE/'UNPAUSE label'/state-label requests, several START/STOP cycles, blocks before the first START and after the last STOP; after every STOP the three side files are parsed and compared with the harness's event log (counts delivered while active, one line per block with drops while active, START, accepted labels, STOP with monotone timestamps); nothing may stay open; non-trivial = at least one finished session",
 			Assumptions: []string{"events delivered while writing is not active must appear nowhere; pause does not suspend the run log (the statement says 'while writing is active')"},
 			Guards: map[string]map[string]int{
-				"quick":    {"sessions": 300, "state_files": 300, "state_lines": 1500, "exttrig_files": 150, "exttrig_counts": 2000, "drop_files": 100, "drop_lines": 200, "labels_accepted": 300, "labels_rejected": 100},
+				"quick":    {"exttrig_bursts": 100, "sessions": 300, "state_files": 300, "state_lines": 1500, "exttrig_files": 150, "exttrig_counts": 2000, "drop_files": 100, "drop_lines": 200, "labels_accepted": 300, "labels_rejected": 100},
 				"thorough": {"sessions": 6000, "exttrig_files": 3000, "drop_files": 2000},
 			}},
 	})
